@@ -17,6 +17,13 @@ Ltac Zify.zify_post_hook ::= Z.div_mod_to_equations.
 
 Import ReceiveLogProofs.
 
+(* The proofs are SEMANTIC: gnorm unfolds every generated definition that is not made Opaque below (so
+   also helpers a refactor extracts), the control structure is analysed one test at a time (split_ifs) and
+   arithmetic is closed by lia; the loops are handled by loop lemmas whose hypotheses (what the condition
+   and the body compute) are proved by tactic, not by syntactic match.  See design-notes/go2coq.md. *)
+Ltac tie_side := intros; cbv beta iota zeta; first [ reflexivity | solve [gnorm; tie_cases] ].
+Ltac rl_proj := cbn [ReceiveLog.started ReceiveLog.rsize ReceiveLog.rend ReceiveLog.lastc ReceiveLog.bits] in *.
+
 Lemma nack_pos sz seq : valid_size sz -> 0 <= seq < 65536 ->
   seq mod sz = ReceiveLog.slot sz seq /\ 0 <= seq mod sz < sz /\ sz = 64 * (sz / 64).
 Proof. intros H Hs. rewrite slot_mod by (auto; lia). each_size H; lia. Qed.
@@ -26,7 +33,7 @@ Lemma gen_nack_getReceived_eq p f sz seq : valid_size sz -> 0 <= seq < 65536 -> 
   g_nack_receiveLog_getReceived p sz seq = ReceiveLog.get_recv f sz seq.
 Proof.
   intros H Hs R. destruct (nack_pos sz seq H Hs) as (E & Hr & _).
-  unfold g_nack_receiveLog_getReceived, ReceiveLog.get_recv. cbv zeta. rewrite <- E.
+  gnorm. unfold ReceiveLog.get_recv. rewrite <- E.
   rewrite bits_get by lia. apply R. lia.
 Qed.
 
@@ -35,7 +42,7 @@ Lemma gen_nack_setReceived_eq p f sz seq : valid_size sz -> 0 <= seq < 65536 -> 
   nack_rep sz p f -> nack_rep sz (g_nack_receiveLog_setReceived p sz seq) (ReceiveLog.set_recv f sz seq).
 Proof.
   intros H Hs L R q Hq. destruct (nack_pos sz seq H Hs) as (E & Hr & Hm).
-  unfold g_nack_receiveLog_setReceived, ReceiveLog.set_recv. cbv zeta. rewrite <- E.
+  gnorm. unfold ReceiveLog.set_recv. cbv zeta. rewrite <- E.
   rewrite bits_set by lia. rewrite R by lia. reflexivity.
 Qed.
 
@@ -44,41 +51,27 @@ Lemma gen_nack_delReceived_eq p f sz seq : valid_size sz -> 0 <= seq < 65536 -> 
   nack_rep sz p f -> nack_rep sz (g_nack_receiveLog_delReceived p sz seq) (ReceiveLog.del_recv f sz seq).
 Proof.
   intros H Hs L R q Hq. destruct (nack_pos sz seq H Hs) as (E & Hr & Hm).
-  unfold g_nack_receiveLog_delReceived, ReceiveLog.del_recv. cbv zeta. rewrite <- E.
+  gnorm. unfold ReceiveLog.del_recv. cbv zeta. rewrite <- E.
   rewrite bits_del by lia. rewrite R by lia. reflexivity.
 Qed.
 
-(* receiveLog.get (the mutex is not rendered) *)
-Lemma gen_nack_get_eq p f sz e st lc seq : valid_size sz -> 0 <= seq < 65536 -> nack_rep sz p f ->
-  g_nack_receiveLog_get p sz e seq = ReceiveLog.get (ReceiveLog.mk_rlog f sz e st lc) seq.
-Proof.
-  intros H Hs R. unfold g_nack_receiveLog_get, ReceiveLog.get, sub16. cbn [ReceiveLog.rend ReceiveLog.rsize ReceiveLog.bits].
-  cbv zeta. rewrite (gen_nack_getReceived_eq p f sz seq H Hs R). reflexivity.
-Qed.
-
-(* no index out of range, no division by zero, for every size newReceiveLog accepts *)
-Lemma gen_nack_bitmap_safe p sz e seq : valid_size sz -> 0 <= seq < 65536 -> g_len p = sz / 64 ->
+(* no index out of range, no division by zero in the three bit accessors *)
+Lemma nack_bits_safe p sz seq : valid_size sz -> 0 <= seq < 65536 -> g_len p = sz / 64 ->
   g_nack_receiveLog_setReceived_safe p sz seq = true /\
   g_nack_receiveLog_delReceived_safe p sz seq = true /\
-  g_nack_receiveLog_getReceived_safe p sz seq = true /\
-  g_nack_receiveLog_get_safe p sz e seq = true.
+  g_nack_receiveLog_getReceived_safe p sz seq = true.
 Proof.
   intros H Hs L. destruct (nack_pos sz seq H Hs) as (_ & Hr & Hm).
-  assert (G : g_nack_receiveLog_getReceived_safe p sz seq = true).
-  { unfold g_nack_receiveLog_getReceived_safe. cbv zeta. destruct (sz =? 0) eqn:Z0; cbn [negb]; [lia|]. lia. }
-  repeat split; auto.
-  - unfold g_nack_receiveLog_setReceived_safe. cbv zeta. destruct (sz =? 0) eqn:Z0; cbn [negb]; [lia|].
-    destruct (_ <? g_len p) eqn:B; [reflexivity|lia].
-  - unfold g_nack_receiveLog_delReceived_safe. cbv zeta. destruct (sz =? 0) eqn:Z0; cbn [negb]; [lia|].
-    destruct (_ <? g_len p) eqn:B; [reflexivity|lia].
-  - unfold g_nack_receiveLog_get_safe. cbv zeta. rewrite G. repeat destruct (_ >=? _); reflexivity.
+  assert (Z0 : (sz =? 0) = false) by lia.
+  assert (B : (seq mod sz / 64 <? g_len p) = true) by lia.
+  repeat split; gnorm; rewrite ?Z0; cbn [negb]; cbv beta iota zeta; rewrite ?B; tie_cases.
 Qed.
 
 (* the words stay uint64 and the slice keeps its length (C12: Model/MemBound.v rl_step) *)
 Lemma gen_nack_setReceived_words p sz seq : words64 p -> 0 <= seq -> 0 < sz ->
   words64 (g_nack_receiveLog_setReceived p sz seq) /\ words64 (g_nack_receiveLog_delReceived p sz seq).
 Proof.
-  intros W Hs Hz. unfold g_nack_receiveLog_setReceived, g_nack_receiveLog_delReceived. cbv zeta.
+  intros W Hs Hz. gnorm.
   assert (K : 0 <= (seq mod sz) mod 64 < 64) by lia.
   rewrite shl1_mod64 by exact K.
   assert (P : 0 <= 2 ^ ((seq mod sz) mod 64) < 18446744073709551616).
@@ -93,18 +86,39 @@ Qed.
 Lemma gen_nack_bitmap_length p sz seq :
   g_len (g_nack_receiveLog_setReceived p sz seq) = MemBound.rl_step (g_len p) seq /\
   g_len (g_nack_receiveLog_delReceived p sz seq) = MemBound.rl_step (g_len p) seq.
+Proof. split; gnorm; unfold MemBound.rl_step; rewrite ?g_upd_length; reflexivity. Qed.
+
+(* from here on the three accessors are used through the lemmas above: autounfold leaves them alone *)
+#[local] Opaque g_nack_receiveLog_setReceived g_nack_receiveLog_delReceived g_nack_receiveLog_getReceived
+  g_nack_receiveLog_setReceived_safe g_nack_receiveLog_delReceived_safe g_nack_receiveLog_getReceived_safe.
+
+(* receiveLog.get (the mutex is not rendered) *)
+Lemma gen_nack_get_eq p f sz e st lc seq : valid_size sz -> 0 <= seq < 65536 -> nack_rep sz p f ->
+  g_nack_receiveLog_get p sz e seq = ReceiveLog.get (ReceiveLog.mk_rlog f sz e st lc) seq.
 Proof.
-  unfold g_nack_receiveLog_setReceived, g_nack_receiveLog_delReceived, MemBound.rl_step. cbv zeta.
-  rewrite !g_upd_length. auto.
+  intros H Hs R. gnorm. unfold ReceiveLog.get, sub16. rl_proj.
+  rewrite ?(gen_nack_getReceived_eq p f sz seq H Hs R). tie_cases.
 Qed.
 
-(* fixLastConsecutive *)
+Lemma gen_nack_bitmap_safe p sz e seq : valid_size sz -> 0 <= seq < 65536 -> g_len p = sz / 64 ->
+  g_nack_receiveLog_setReceived_safe p sz seq = true /\
+  g_nack_receiveLog_delReceived_safe p sz seq = true /\
+  g_nack_receiveLog_getReceived_safe p sz seq = true /\
+  g_nack_receiveLog_get_safe p sz e seq = true.
+Proof.
+  intros H Hs L. destruct (nack_bits_safe p sz seq H Hs L) as (A & B & C).
+  repeat split; auto. gnorm. rewrite ?C. tie_cases.
+Qed.
+
+(* fixLastConsecutive: loop specification.  Any g_while over the cursor i that continues while i <> e1 and
+   bit i is set, and advances i by one (mod 2^16) *)
 Lemma fix_while sz p fm e1 (c : Z -> bool) (f : Z -> Z) : valid_size sz -> nack_rep sz p fm ->
-  (forall i, c i = negb (i =? e1) && g_nack_receiveLog_getReceived p sz i) -> (forall i, f i = (i + 1) mod 65536) ->
+  (forall i, 0 <= i < 65536 -> c i = negb (i =? e1) && g_nack_receiveLog_getReceived p sz i) ->
+  (forall i, 0 <= i < 65536 -> f i = (i + 1) mod 65536) ->
   forall n i, 0 <= i < 65536 -> g_while n c f i = ReceiveLog.fix_loop fm sz e1 i n.
 Proof.
   intros H R Hc Hf. induction n as [|n IH]; intros i Hi; [reflexivity|].
-  cbn [g_while ReceiveLog.fix_loop]. rewrite Hc, (gen_nack_getReceived_eq p fm sz i H Hi R).
+  cbn [g_while ReceiveLog.fix_loop]. rewrite Hc, (gen_nack_getReceived_eq p fm sz i H Hi R) by exact Hi.
   destruct (negb (i =? e1) && ReceiveLog.get_recv fm sz i); [|reflexivity].
   rewrite Hf, IH by lia. rewrite inc16_add16 by lia. reflexivity.
 Qed.
@@ -112,14 +126,34 @@ Qed.
 Lemma gen_nack_fixLastConsecutive_eq p fm sz e lc : valid_size sz -> 0 <= lc < 65536 -> nack_rep sz p fm ->
   g_nack_receiveLog_fixLastConsecutive p sz e lc = ReceiveLog.fix_last fm sz e lc.
 Proof.
-  intros H Hl R. unfold g_nack_receiveLog_fixLastConsecutive, ReceiveLog.fix_last, add16, sub16. cbv zeta.
-  erewrite (fix_while sz p fm ((e + 1) mod 65536)); [reflexivity|exact H|exact R| | |lia]; intros; reflexivity.
+  intros H Hl R. gnorm. unfold ReceiveLog.fix_last, add16, sub16. cbv zeta.
+  match goal with |- context [g_while ?n ?c ?f ?s] =>
+    rewrite (fix_while sz p fm ((e + 1) mod 65536) c f H R ltac:(tie_side) ltac:(tie_side) n s) by lia
+  end.
+  tie_cases.
 Qed.
 
-(* the clearing loop of add *)
+Lemma gen_nack_fixLastConsecutive_safe p sz e lc : valid_size sz -> g_len p = sz / 64 ->
+  g_nack_receiveLog_fixLastConsecutive_safe p sz e lc = true.
+Proof.
+  intros H L. gnorm.
+  repeat match goal with |- context [g_while_safe ?n ?cs ?c ?fs ?f ?s] =>
+    rewrite (g_while_safe_inv (fun i => 0 <= i < 65536) cs c fs f);
+      [ | intros i Hi; cbv beta iota zeta;
+          destruct (nack_bits_safe p sz i H Hi L) as (_ & _ & G); rewrite ?G;
+          split; [ first [reflexivity | apply orb_true_r] | intros _; split; [reflexivity | tlia] ]
+        | tlia ]
+  end.
+  tie_cases.
+Qed.
+
+#[local] Opaque g_nack_receiveLog_fixLastConsecutive g_nack_receiveLog_fixLastConsecutive_safe.
+
+(* the clearing loop of add: loop specification.  Any g_while over (i, packets) that runs while i <> bound,
+   clears bit i and advances i by one (mod 2^16) *)
 Lemma del_while sz bound (c : Z * list Z -> bool) (f : Z * list Z -> Z * list Z) : valid_size sz ->
-  (forall i p, c (i, p) = negb (i =? bound)) ->
-  (forall i p, f (i, p) = ((i + 1) mod 65536, g_nack_receiveLog_delReceived p sz i)) ->
+  (forall i p, 0 <= i < 65536 -> c (i, p) = negb (i =? bound)) ->
+  (forall i p, 0 <= i < 65536 -> f (i, p) = ((i + 1) mod 65536, g_nack_receiveLog_delReceived p sz i)) ->
   forall n i p fm, 0 <= i < 65536 -> 0 <= bound < 65536 -> (bound - i) mod 65536 = Z.of_nat n ->
     g_len p = sz / 64 -> nack_rep sz p fm ->
     g_len (snd (g_while n c f (i, p))) = sz / 64 /\
@@ -127,7 +161,7 @@ Lemma del_while sz bound (c : Z * list Z -> bool) (f : Z * list Z -> Z * list Z)
 Proof.
   intros H Hc Hf. induction n as [|n IH]; intros i p fm Hi Hb E L R; [cbn; auto|].
   destruct (ne_step bound i n Hi Hb E) as (Ne & Hi' & E').
-  cbn [g_while ReceiveLog.del_loop]. rewrite Hc, Ne. cbn [negb]. rewrite Hf.
+  cbn [g_while ReceiveLog.del_loop]. rewrite Hc, Ne by exact Hi. cbn [negb]. rewrite Hf by exact Hi.
   rewrite inc16_add16 by lia. unfold add16. apply IH; auto.
   - destruct (gen_nack_bitmap_length p sz i) as [_ ->]. exact L.
   - apply gen_nack_delReceived_eq; auto.
@@ -144,44 +178,38 @@ Proof.
   intros H Hs He Hl L R.
   assert (SetL : forall q, g_len q = sz / 64 -> g_len (g_nack_receiveLog_setReceived q sz seq) = sz / 64).
   { intros q Lq. destruct (gen_nack_bitmap_length q sz seq) as [-> _]. exact Lq. }
-  unfold g_nack_receiveLog_add, ReceiveLog.add, sub16, add16.
-  cbn [ReceiveLog.started ReceiveLog.rsize ReceiveLog.rend ReceiveLog.lastc ReceiveLog.bits]. cbv zeta.
-  destruct st; cbn [negb].
-  2:{ cbn [ReceiveLog.started ReceiveLog.rsize ReceiveLog.rend ReceiveLog.lastc ReceiveLog.bits].
-      repeat split; auto. apply gen_nack_setReceived_eq; auto. }
-  destruct ((seq - e) mod 65536 =? 0) eqn:D0.
-  { cbn [ReceiveLog.started ReceiveLog.rsize ReceiveLog.rend ReceiveLog.lastc ReceiveLog.bits]. repeat split; auto. }
-  destruct ((seq - e) mod 65536 <? 32768) eqn:D1.
-  - (* seq is ahead of end: clear, move end, re-anchor *)
-    set (n := Z.to_nat ((seq - (e + 1) mod 65536) mod 65536)).
-    assert (En : Z.of_nat n = (seq - e) mod 65536 - 1) by (unfold n; lia).
-    match goal with |- context [g_while n ?c ?f ?s] =>
-      destruct (del_while sz seq c f H (fun _ _ => eq_refl) (fun _ _ => eq_refl) n ((e + 1) mod 65536) p fm) as [L1 R1];
-        [lia|lia|unfold n; lia|exact L|exact R|];
-      destruct (g_while n c f s) as [i1 p1] end.
-    cbn [snd] in L1, R1.
-    assert (R2 : nack_rep sz p1 (ReceiveLog.clear_range fm sz e ((seq - e) mod 65536 - 1))).
-    { eapply nack_rep_ext; [exact R1|]. intros q Hq.
-      rewrite (del_loop_closed sz H n fm e q Hq). rewrite En. rewrite (Z.mod_small e) by lia. reflexivity. }
-    destruct ((lc + 1) mod 65536 =? seq) eqn:C1.
-    + cbn [ReceiveLog.started ReceiveLog.rsize ReceiveLog.rend ReceiveLog.lastc ReceiveLog.bits].
-      repeat split; auto. apply gen_nack_setReceived_eq; auto.
-    + destruct ((seq - lc) mod 65536 >? sz) eqn:C2;
-        cbn [ReceiveLog.started ReceiveLog.rsize ReceiveLog.rend ReceiveLog.lastc ReceiveLog.bits];
-        repeat split; auto; try (apply gen_nack_setReceived_eq; auto).
-      apply gen_nack_fixLastConsecutive_eq; auto. lia.
-  - destruct ((e - seq) mod 65536 >=? sz) eqn:D2.
-    { cbn [ReceiveLog.started ReceiveLog.rsize ReceiveLog.rend ReceiveLog.lastc ReceiveLog.bits]. repeat split; auto. }
-    destruct ((lc + 1) mod 65536 =? seq) eqn:C1;
-      cbn [ReceiveLog.started ReceiveLog.rsize ReceiveLog.rend ReceiveLog.lastc ReceiveLog.bits];
-      repeat split; auto; try (apply gen_nack_setReceived_eq; auto).
-    apply gen_nack_fixLastConsecutive_eq; auto.
+  assert (SetR : forall q g, g_len q = sz / 64 -> nack_rep sz q g ->
+            nack_rep sz (g_nack_receiveLog_setReceived q sz seq) (ReceiveLog.set_recv g sz seq)).
+  { intros q g Lq Rq. apply gen_nack_setReceived_eq; auto. }
+  gnorm. unfold ReceiveLog.add, sub16, add16. rl_proj. cbv beta iota zeta.
+  (* the clearing loop, wherever the refactoring put it *)
+  repeat match goal with |- context [g_while ?n ?c ?f ?s] =>
+    let L1 := fresh "L1" in let R1 := fresh "R1" in
+    destruct (del_while sz seq c f H ltac:(tie_side) ltac:(tie_side) n ((e + 1) mod 65536) p fm) as [L1 R1];
+      [tlia|tlia|tlia|exact L|exact R|];
+    let i1 := fresh "i1" in let p1 := fresh "p1" in
+    destruct (g_while n c f s) as [i1 p1]; cbn [snd] in L1, R1;
+    assert (forall d, d = (seq - e) mod 65536 - 1 -> 0 <= d ->
+              nack_rep sz p1 (ReceiveLog.clear_range fm sz e d))
+      by (intros d -> Hd; eapply nack_rep_ext; [exact R1|]; intros q Hq;
+          rewrite (del_loop_closed sz H _ fm e q Hq); rewrite (Z.mod_small e) by lia; f_equal; lia)
+  end.
+  destruct st; cbn [negb]; cbv beta iota zeta; split_ifs; rl_proj;
+    first [ exfalso; tlia
+          | repeat split;
+            first [ reflexivity | assumption | tlia
+                  | apply SetL; assumption
+                  | apply SetR; first [assumption | match goal with K : forall d, _ |- _ => apply K; tlia end]
+                  | apply gen_nack_fixLastConsecutive_eq;
+                    first [assumption | tlia | match goal with K : forall d, _ |- _ => apply K; tlia end] ] ].
 Qed.
 
+(* missingSeqNumbers: loop specification.  Any g_while over (i, buf, k) that runs while i <> bound, writes i at
+   buf[k] and advances k when bit i is clear, and advances i by one (mod 2^16) *)
 Lemma miss_while sz p fm bound (c : Z * list Z * Z -> bool) (f : Z * list Z * Z -> Z * list Z * Z) :
   valid_size sz -> nack_rep sz p fm ->
-  (forall i b k, c (i, b, k) = negb (i =? bound)) ->
-  (forall i b k, f (i, b, k) = if negb (g_nack_receiveLog_getReceived p sz i)
+  (forall i b k, 0 <= i < 65536 -> c (i, b, k) = negb (i =? bound)) ->
+  (forall i b k, 0 <= i < 65536 -> f (i, b, k) = if negb (g_nack_receiveLog_getReceived p sz i)
                                then ((i + 1) mod 65536, g_upd b k i, k + 1) else ((i + 1) mod 65536, b, k)) ->
   forall n i b k, 0 <= i < 65536 -> 0 <= bound < 65536 -> (bound - i) mod 65536 = Z.of_nat n ->
     0 <= k -> k + g_len (ReceiveLog.miss_loop fm sz i n) <= g_len b ->
@@ -192,7 +220,7 @@ Proof.
   intros H R Hc Hf. induction n as [|n IH]; intros i b k Hi Hb E Hk Room.
   - cbn. rewrite app_nil_r. repeat split; auto. unfold g_len. cbn. lia.
   - destruct (ne_step bound i n Hi Hb E) as (Ne & Hi' & E').
-    cbn [g_while ReceiveLog.miss_loop] in *. rewrite Hc, Ne. cbn [negb]. rewrite Hf.
+    cbn [g_while ReceiveLog.miss_loop] in *. rewrite Hc, Ne by exact Hi. cbn [negb]. rewrite Hf by exact Hi.
     rewrite (gen_nack_getReceived_eq p fm sz i H Hi R). rewrite inc16_add16 in * by lia. unfold add16 in *.
     destruct (ReceiveLog.get_recv fm sz i); cbn [negb].
     + apply IH; auto.
@@ -210,27 +238,20 @@ Lemma gen_nack_missing_eq p fm sz e st lc skip buf : valid_size sz ->
   g_len (ReceiveLog.missing (ReceiveLog.mk_rlog fm sz e st lc) skip) <= g_len buf ->
   g_nack_receiveLog_missingSeqNumbers p sz e lc skip buf = ReceiveLog.missing (ReceiveLog.mk_rlog fm sz e st lc) skip.
 Proof.
-  intros H He Hl Hk R Room.
-  unfold g_nack_receiveLog_missingSeqNumbers, ReceiveLog.missing, sub16, add16 in *.
-  cbn [ReceiveLog.rend ReceiveLog.lastc ReceiveLog.bits ReceiveLog.rsize] in *. cbv zeta in *.
-  destruct (skip >? (e - lc) mod 65536); [reflexivity|].
+  intros H He Hl Hk R Room. gnorm.
+  unfold ReceiveLog.missing, sub16, add16 in *. rl_proj. cbv zeta in *.
   set (bound := (((e - skip) mod 65536 + 1) mod 65536)) in *.
   set (i0 := (lc + 1) mod 65536) in *.
-  set (n := Z.to_nat ((bound - i0) mod 65536)) in *.
-  match goal with |- context [g_while n ?c ?f ?s] =>
-    destruct (miss_while sz p fm bound c f H R (fun _ _ _ => eq_refl) (fun _ _ _ => eq_refl) n i0 buf 0) as (A & B & C);
-      [unfold i0; lia|unfold bound; lia|unfold n; lia|lia|lia|];
-    destruct (g_while n c f s) as [[i1 b1] k1] end.
-  cbn [fst snd] in A. rewrite A. reflexivity.
-Qed.
-
-Lemma gen_nack_fixLastConsecutive_safe p sz e lc : valid_size sz -> g_len p = sz / 64 ->
-  g_nack_receiveLog_fixLastConsecutive_safe p sz e lc = true.
-Proof.
-  intros H L. unfold g_nack_receiveLog_fixLastConsecutive_safe. cbv zeta.
-  rewrite (g_while_safe_inv (fun i => 0 <= i < 65536)); [reflexivity| |lia].
-  intros i Hi. split; [|split; [reflexivity|lia]].
-  destruct (gen_nack_bitmap_safe p sz 0 i H Hi L) as (_ & _ & G & _). rewrite G. apply orb_true_r.
+  destruct (skip >? (e - lc) mod 65536) eqn:Sk.
+  { split_ifs; tie_leaf. }
+  repeat match goal with |- context [g_while ?n ?c ?f ?s] =>
+    destruct (miss_while sz p fm bound c f H R ltac:(tie_side) ltac:(tie_side) n i0 buf 0) as (A & B & C);
+      [unfold i0; tlia|unfold bound; tlia|unfold bound, i0; tlia|tlia|
+       match type of Room with context [ReceiveLog.miss_loop _ _ _ ?m] => replace n with m by (unfold bound, i0; tlia) end; tlia|];
+    destruct (g_while n c f s) as [[i1 b1] k1]; cbn [fst snd] in A, B, C
+  end.
+  split_ifs; try (exfalso; tlia). rewrite A.
+  first [ reflexivity | change (g_take buf 0) with (@nil Z); cbn [app]; unfold bound, i0; f_equal; tlia ].
 Qed.
 
 Lemma gen_nack_add_safe p sz e st lc seq : valid_size sz -> 0 <= seq < 65536 -> g_len p = sz / 64 ->
@@ -238,32 +259,34 @@ Lemma gen_nack_add_safe p sz e st lc seq : valid_size sz -> 0 <= seq < 65536 -> 
 Proof.
   intros H Hs L.
   assert (SetS : forall q, g_len q = sz / 64 -> g_nack_receiveLog_setReceived_safe q sz seq = true).
-  { intros q Lq. apply (gen_nack_bitmap_safe q sz 0 seq H Hs Lq). }
-  unfold g_nack_receiveLog_add_safe. cbv zeta.
-  destruct (negb st); [rewrite SetS by auto; reflexivity|].
-  destruct (_ =? 0); [reflexivity|]. destruct (_ <? 32768).
-  - set (n := Z.to_nat ((seq - (e + 1) mod 65536) mod 65536)).
-    match goal with |- context [g_while n ?c ?f ?s] =>
-      assert (Inv : forall m s', 0 <= fst s' < 65536 /\ g_len (snd s') = sz / 64 ->
-                0 <= fst (g_while m c f s') < 65536 /\ g_len (snd (g_while m c f s')) = sz / 64)
-    end.
-    { induction m as [|m IH]; intros [i q] [Hi Lq]; cbn [g_while fst snd] in *; [auto|].
-      destruct (negb (i =? seq)); [|cbn [fst snd]; auto]. apply IH. cbn [fst snd]. split; [lia|].
-      destruct (gen_nack_bitmap_length q sz i) as [_ ->]. exact Lq. }
-    match goal with |- context [g_while_safe n ?cs ?c ?fs ?f ?s] =>
-      rewrite (g_while_safe_inv (fun s' => 0 <= fst s' < 65536 /\ g_len (snd s') = sz / 64) cs c fs f)
-    end.
-    + match goal with |- context [g_while n ?c ?f ?s] =>
-        destruct (Inv n s) as [_ L1]; [cbn [fst snd]; split; [lia|exact L]|]; destruct (g_while n c f s) as [i1 p1]
-      end. cbn [snd] in L1.
-      destruct (_ =? seq); [rewrite SetS by auto; reflexivity|].
-      destruct (_ >? sz); [rewrite gen_nack_fixLastConsecutive_safe by auto|]; rewrite SetS by auto; reflexivity.
-    + intros [i q] [Hi Lq]. cbn [fst snd] in *. split; [reflexivity|]. intros _.
-      destruct (gen_nack_bitmap_safe q sz 0 i H Hi Lq) as (_ & D & _ & _). rewrite D. split; [reflexivity|].
-      split; [lia|]. destruct (gen_nack_bitmap_length q sz i) as [_ ->]. exact Lq.
-    + cbn [fst snd]. split; [lia|exact L].
-  - destruct (_ >=? sz); [reflexivity|].
-    destruct (_ =? seq); [rewrite gen_nack_fixLastConsecutive_safe by auto|]; rewrite SetS by auto; reflexivity.
+  { intros q Lq. apply (nack_bits_safe q sz seq H Hs Lq). }
+  assert (R : nack_rep sz p (bits_of p)) by (intros q _; reflexivity).
+  gnorm.
+  (* every trip of the clearing loop is safe *)
+  repeat match goal with |- context [g_while_safe ?n ?cs ?c ?fs ?f ?s] =>
+    rewrite (g_while_safe_inv (fun s' : Z * list Z => 0 <= fst s' < 65536 /\ g_len (snd s') = sz / 64) cs c fs f);
+      [ | intros [i q] [Hi Lq]; cbn [fst snd] in *; cbv beta iota zeta;
+          destruct (nack_bits_safe q sz i H Hi Lq) as (_ & D & _); rewrite ?D; cbv beta iota zeta;
+          split; [ reflexivity | intros _; split; [ reflexivity | split; [ tlia | ] ] ];
+          destruct (gen_nack_bitmap_length q sz i) as [_ ->]; exact Lq
+        | cbn [fst snd]; split; [ tlia | exact L ] ]
+  end.
+  (* the loop keeps the length of the bitmap *)
+  repeat match goal with |- context [g_while ?n ?c ?f ?s] =>
+    let L1 := fresh "L1" in
+    destruct (del_while sz seq c f H ltac:(tie_side) ltac:(tie_side) n ((e + 1) mod 65536) p (bits_of p)) as [L1 _];
+      [tlia|tlia|tlia|exact L|exact R|];
+    destruct (g_while n c f s) as [? ?]; cbn [snd] in L1
+  end.
+  rewrite ?SetS, ?gen_nack_fixLastConsecutive_safe by assumption.
+  destruct st; cbn [negb]; cbv beta iota zeta; split_ifs;
+    first [ tie_leaf
+          | exfalso;
+            match goal with
+            | K : g_nack_receiveLog_setReceived_safe _ _ _ = false |- _ => rewrite SetS in K by assumption; discriminate
+            | K : g_nack_receiveLog_fixLastConsecutive_safe _ _ _ _ = false |- _ =>
+                rewrite gen_nack_fixLastConsecutive_safe in K by assumption; discriminate
+            end ].
 Qed.
 
 Lemma gen_nack_missing_safe p fm sz e st lc skip buf : valid_size sz ->
@@ -271,42 +294,50 @@ Lemma gen_nack_missing_safe p fm sz e st lc skip buf : valid_size sz ->
   g_len (ReceiveLog.missing (ReceiveLog.mk_rlog fm sz e st lc) skip) <= g_len buf ->
   g_nack_receiveLog_missingSeqNumbers_safe p sz e lc skip buf = true.
 Proof.
-  intros H He Hl Hk L R Room.
-  unfold g_nack_receiveLog_missingSeqNumbers_safe, ReceiveLog.missing, sub16, add16 in *.
-  cbn [ReceiveLog.rend ReceiveLog.lastc ReceiveLog.bits ReceiveLog.rsize] in *. cbv zeta in *.
-  destruct (skip >? (e - lc) mod 65536); [reflexivity|].
+  intros H He Hl Hk L R Room. gnorm.
+  unfold ReceiveLog.missing, sub16, add16 in *. rl_proj. cbv zeta in *.
   set (bound := (((e - skip) mod 65536 + 1) mod 65536)) in *.
   set (i0 := (lc + 1) mod 65536) in *.
-  set (n := Z.to_nat ((bound - i0) mod 65536)) in *.
   assert (Hb : 0 <= bound < 65536) by (unfold bound; lia).
-  match goal with |- context [g_while_safe n ?cs ?c ?fs ?f ?s] =>
+  destruct (skip >? (e - lc) mod 65536) eqn:Sk.
+  { split_ifs; tie_leaf. }
+  repeat match goal with |- context [g_while_safe ?n ?cs ?c ?fs ?f ?s] =>
     rewrite (g_while_safe_inv (fun s' : Z * list Z * Z => let '(i, b, k) := s' in
                0 <= i < 65536 /\ 0 <= k /\
-               k + g_len (ReceiveLog.miss_loop fm sz i (Z.to_nat ((bound - i) mod 65536))) <= g_len b) cs c fs f)
+               k + g_len (ReceiveLog.miss_loop fm sz i (Z.to_nat ((bound - i) mod 65536))) <= g_len b) cs c fs f);
+    [ | intros [[i b] k] (Hi & Hk0 & Rm); cbv beta iota zeta;
+        destruct (nack_bits_safe p sz i H Hi L) as (_ & _ & G); rewrite ?G;
+        rewrite ?(gen_nack_getReceived_eq p fm sz i H Hi R);
+        split; [ reflexivity | intros Cnd ];
+        assert (Ne : (i =? bound) = false) by (destruct (i =? bound); [discriminate|reflexivity]);
+        assert (Fu : Z.to_nat ((bound - i) mod 65536) = S (Z.to_nat ((bound - (i + 1) mod 65536) mod 65536))) by lia;
+        rewrite Fu in Rm; cbn [ReceiveLog.miss_loop] in Rm; rewrite inc16_add16 in Rm by lia; unfold add16 in Rm;
+        destruct (ReceiveLog.get_recv fm sz i); cbn [negb] in *; cbv beta iota zeta;
+        [ split; [reflexivity|]; repeat split; try lia; exact Rm
+        | assert (Lc : forall l, g_len (i :: l) = 1 + g_len l) by (intros; unfold g_len; cbn [length]; lia);
+          rewrite Lc in Rm;
+          assert (0 <= g_len (ReceiveLog.miss_loop fm sz ((i + 1) mod 65536) (Z.to_nat ((bound - (i + 1) mod 65536) mod 65536))))
+            by (unfold g_len; lia);
+          replace ((0 <=? k) && (k <? g_len b)) with true by lia; split; [reflexivity|];
+          rewrite g_upd_length; repeat split; lia ]
+      | cbv beta iota; repeat split; try (unfold i0; lia);
+        match type of Room with context [ReceiveLog.miss_loop _ _ _ ?m] =>
+          replace (Z.to_nat ((bound - i0) mod 65536)) with m by (unfold bound, i0; tlia) end; tlia ]
   end.
-  - match goal with |- context [g_while n ?c ?f ?s] =>
-      destruct (miss_while sz p fm bound c f H R (fun _ _ _ => eq_refl) (fun _ _ _ => eq_refl) n i0 buf 0) as (A & B & C);
-        [unfold i0; lia|exact Hb|unfold n; lia|lia|lia|];
-      destruct (g_while n c f s) as [[i1 b1] k1] end.
-    cbn [fst snd] in B, C. subst k1. rewrite C.
-    assert (0 <= g_len (ReceiveLog.miss_loop fm sz i0 n)) by (unfold g_len; lia). lia.
-  - intros [[i b] k] (Hi & Hk0 & Rm). split; [reflexivity|]. intros Cnd.
-    assert (Ne : (i =? bound) = false) by (destruct (i =? bound); [discriminate|reflexivity]).
-    destruct (gen_nack_bitmap_safe p sz 0 i H Hi L) as (_ & _ & G & _). rewrite G.
-    rewrite (gen_nack_getReceived_eq p fm sz i H Hi R).
-    assert (Fu : Z.to_nat ((bound - i) mod 65536) = S (Z.to_nat ((bound - (i + 1) mod 65536) mod 65536))) by lia.
-    rewrite Fu in Rm. cbn [ReceiveLog.miss_loop] in Rm. rewrite inc16_add16 in Rm by lia. unfold add16 in Rm.
-    destruct (ReceiveLog.get_recv fm sz i); cbn [negb].
-    + split; [reflexivity|]. repeat split; try lia; exact Rm.
-    + assert (Lc : forall l, g_len (i :: l) = 1 + g_len l) by (intros; unfold g_len; cbn [length]; lia).
-      rewrite Lc in Rm.
-      assert (0 <= g_len (ReceiveLog.miss_loop fm sz ((i + 1) mod 65536) (Z.to_nat ((bound - (i + 1) mod 65536) mod 65536))))
-        by (unfold g_len; lia).
-      replace ((0 <=? k) && (k <? g_len b)) with true by lia. split; [reflexivity|].
-      rewrite g_upd_length. repeat split; lia.
-  - cbv beta iota. repeat split; try (unfold i0; lia). fold n. lia.
+  repeat match goal with |- context [g_while ?n ?c ?f ?s] =>
+    destruct (miss_while sz p fm bound c f H R ltac:(tie_side) ltac:(tie_side) n i0 buf 0) as (A & B & C);
+      [unfold i0; tlia|exact Hb|unfold bound, i0; tlia|tlia|
+       match type of Room with context [ReceiveLog.miss_loop _ _ _ ?m] => replace n with m by (unfold bound, i0; tlia) end; tlia|];
+    destruct (g_while n c f s) as [[i1 b1] k1]; cbn [fst snd] in A, B, C
+  end.
+  assert (0 <= g_len (ReceiveLog.miss_loop fm sz i0 (Z.to_nat ((bound - i0) mod 65536)))) by (unfold g_len; lia).
+  split_ifs; first [ reflexivity | tlia | exfalso; tlia ].
 Qed.
 
+(* ========================================================================================== *)
+(* C03: whole histories.  Running the regenerated add over any arrival list from the state    *)
+(* newReceiveLog builds is the model run add_all, field by field.                             *)
+(* ========================================================================================== *)
 Definition g_add_st (sz : Z) (s : list Z * Z * bool * Z) (seq : Z) : list Z * Z * bool * Z :=
   let '(p, e, st, lc) := s in g_nack_receiveLog_add p sz e st lc seq.
 
